@@ -206,10 +206,10 @@ class C08(Prop):
             '`started` handler, in any node handler, in a later generator step of a handler, or issued by a second real thread; '
             'kind stop() / stop(code) / raise SystemExit(code) / raise KeyboardInterrupt; code from {None,0,3,"msg"}; before or '
             'after the handler fired its children; 1-3 run/stop cycles on the same manager with 0-2 stop() calls while not '
-            'running in between; optionally a second stop(code)/SystemExit(code) from the `stopped` handler or the drained tail (must have no effect), a coroutine `stopped` handler, a chain outliving the fade-out; real run() with a non-blocking idle stub; non-trivial = >=2 events were still queued or unfired '
+            'running in between; optionally a second stop(code)/SystemExit(code) from the `stopped` handler or the drained tail (must have no effect), a coroutine `stopped` handler, a chain outliving the fade-out; real run() with a non-blocking idle stub; plus enumerated: every single pre-emption of a loop thread running run() and a second thread calling stop(code) under the cooperative scheduler (fallback/Select idle, thorough also Poll/EPoll); non-trivial = >=2 events were still queued or unfired '
             'descendants of the current batch when the stop executed; distinct = spec hash')
     assumptions = ('the second thread calls stop() while the loop thread waits for it inside a handler (deterministic hand-over); '
-                   'arbitrary interleavings of foreign threads are C03',
+                   'beyond that, every single pre-emption of a scheduled loop thread / foreign stop(code) pair is enumerated (vlib/sched.py); deeper interleavings of foreign fire() are C03',
                    'real signals are not delivered; KeyboardInterrupt/SystemExit are raised from handlers',
                    'only one generator handler exists per cycle (the one carrying the stop), so no task outlives the stop')
     budget = {'quick': (2500, 4), 'thorough': (100000, 16)}
